@@ -107,7 +107,7 @@ def check_file(job):
             msg = _re.sub(r"'[^']*'", "'*'", (e.msg or "").split("(")[0].strip())
             line = (e.text or "").strip()[:160]
             ctx = ""
-            if _re.match(r"case\b", line):
+            if _re.match(r"case\b", line) or " pattern" in (e.msg or ""):
                 ctx = "match_pattern:"          # a pattern of a match statement was rewritten
             elif _re.search(r"\bfor\s+\(?\s*_rt\._", line):
                 ctx = "comprehension_target:"   # the target of a comprehension / loop was rewritten into a call
